@@ -176,6 +176,28 @@ def gen_case(rng, tier, direction=None, feats=None):
     elif r < 0.25:
         case['prior'] = 'fail'
         case['resources'] = [x for x in case['resources'] if x[0] != 'zz'] + [['zz', ['D', []]]]
+    r2 = rng.random()
+    cands = [x for x in case['resources'] if x[0] != 'zz']
+    if cands and r2 < 0.25:
+        # long-lived objects whose inputs change: a resource is created with one calendar and gets the case's calendar later - after the
+        # scheduler was built and (when `prior`) used; or dated entries are added through set_units at that point
+        nm, expr = rng.choice(cands)
+        path = fam_cal.first_dated(expr)
+        node = expr
+        for i in (path or ()):
+            node = node[i]
+        if path is not None and node[1] and rng.random() < 0.6:
+            items = [it for it in node[1] if rng.random() < 0.5] or node[1][:1]
+            case['calEarly'] = [[nm, 'set_units', items]]
+        else:
+            case['calEarly'] = [[nm, 'replace', rng.choice(CALS)(rng)]]
+        if rng.random() < 0.6 and not case.get('prior'):
+            case['prior'] = 'ok'
+    if links and rng.random() < 0.15:
+        # the WBS is edited (its last link added) between two calcs of the same scheduler on the same WBS object
+        case['lateLink'] = True
+        if not case.get('prior'):
+            case['prior'] = 'ok'
     # keep only the links the graph API accepts (the case stays replayable: rejected links are dropped)
     case['links'] = build(case)[3]
     return case
@@ -188,7 +210,8 @@ def random_case(prop, rng, tier):
 
 # ------------------------------------------------------------------------------------ building the real objects
 
-def build(case):
+def build(case, hold_last_link=False):
+    """`hold_last_link`: the last link of the case is not made; it is returned as `pending` (objs indices) for the caller to add later"""
     from pjplan import Task, WBS
     w = WBS()
     others = []
@@ -221,16 +244,22 @@ def build(case):
             others[-1] // o           # member of another project
         objs.append(o)
     accepted = []
-    for a, b in case['links']:
+    links = list(case['links'])
+    build.pending = None
+    if hold_last_link and links:
+        build.pending = links.pop()
+    for a, b in links:
         try:
             objs[a] >> objs[b]
             accepted.append([a, b])
         except RuntimeError:
             pass
+    if build.pending is not None:
+        accepted.append(build.pending)
     return w, objs, others, accepted
 
 
-def resources_of(case):
+def resources_of(case, initial=False):
     from pjplan import Resource
     from pjplan.calendar import FuncCalendar, FixedCalendar
 
@@ -238,8 +267,48 @@ def resources_of(case):
         raise RuntimeError('poisoned resource')
     # 'zz' is used by the poison task of a 'prior failing calc' only (never by a task of the case): its calendar raises at the first
     # query, which ends that calc in the middle of its pass without walking the 100 000-day horizon (the model is given an empty calendar)
-    return [Resource(name, FuncCalendar(FixedCalendar(8), poison) if name == 'zz' else fam_cal.build_impl(expr, case.get('floats', False)))
-            for name, expr in case['resources']]
+    res = []
+    early = {e[0]: e for e in (case.get('calEarly') or [])} if initial else {}
+    resources_of.changes = []
+    for name, expr in case['resources']:
+        if name == 'zz':
+            res.append(Resource(name, FuncCalendar(FixedCalendar(8), poison)))
+            continue
+        fl = case.get('floats', False)
+        if name in early:
+            # this resource starts its life with another calendar; `apply_late_changes` gives it the one of the case afterwards
+            _, how, arg = early[name]
+            if how == 'replace':
+                r = Resource(name, fam_cal.build_impl(arg, fl))
+                resources_of.changes.append(('replace', r, expr))
+            else:                       # 'set_units': the first dated calendar of the definition first lacks the entries `arg`
+                import copy
+                init = copy.deepcopy(expr)
+                path = fam_cal.first_dated(init)
+                node = init
+                for i in path:
+                    node = node[i]
+                gone = set(t // DAY_US for t, _ in arg)
+                node[1] = [it for it in node[1] if it[0] // DAY_US not in gone]
+                if len(node) > 2:
+                    node[2] = len(node[1])
+                dated = []
+                r = Resource(name, fam_cal.build_impl(init, fl, dated))
+                resources_of.changes.append(('set_units', dated[0], arg))
+            res.append(r)
+        else:
+            res.append(Resource(name, fam_cal.build_impl(expr, fl)))
+    return res
+
+
+def apply_late_changes(case, changes):
+    """the calendars take the definitions of the case (after the scheduler was built / used with the earlier ones)"""
+    fl = case.get('floats', False)
+    for how, obj, arg in changes:
+        if how == 'replace':
+            obj.calendar = fam_cal.build_impl(arg, fl)
+        else:
+            obj.set_units({from_us(t): py_num(v, fl) for t, v in arg})
 
 
 def snapshot(w, objs):
@@ -253,17 +322,20 @@ def us_or_none(d):
     return None if d is None else to_us(d)
 
 
-def run_calc(case, w, objs, clock=None, scheduler=None):
-    """one calc under the scripted clock; returns (obs dict, scheduler object)"""
+def run_calc(case, w, objs, clock=None, scheduler=None, main=False, between=None):
+    """one calc under the scripted clock; returns (obs dict, scheduler object).  `main`: the case's own run - the scheduler is built with
+    the resources' earlier calendars (if any), used once (`prior`), then `between()` makes the late changes (calendars, a held link)"""
     from pjplan import ForwardScheduler, BackwardScheduler
+    changes = []
     if scheduler is None:
         # the scheduler object is built under its own clock (possibly days before the calc): calc must read the clock itself
         set_clock([(clock or case['clock'])[0] - case.get('ctorLead', 0)])
         cls = ForwardScheduler if case['dir'] == 'fwd' else BackwardScheduler
         kw = {'start' if case['dir'] == 'fwd' else 'end': from_us(case['bound'])}
-        scheduler = cls(resources=resources_of(case), balance_resources=case['balance'],
+        scheduler = cls(resources=resources_of(case, initial=main), balance_resources=case['balance'],
                         default_estimate=py_num(case['defaultEst'], False), **kw)
-        prior = case.get('prior')
+        changes = list(resources_of.changes)
+        prior = case.get('prior') if main else None
         if prior == 'fail' and not any(nm == 'zz' for nm, _ in case['resources']):
             prior = None         # (a shrunk case that lost the poisoned resource: no earlier failing calc)
         if prior:
@@ -280,6 +352,10 @@ def run_calc(case, w, objs, clock=None, scheduler=None):
                     scheduler.calc(w2)
             except Exception:  # noqa
                 pass
+    if main:
+        apply_late_changes(case, changes)
+        if between is not None:
+            between()
     set_clock(clock or case['clock'])
     try:
         sch = scheduler.calc(w)
@@ -318,7 +394,7 @@ def record(case, w, objs, others):
     for o in allobjs:
         raw_parent = getattr(o, '_Task__parent', None)
         rows.append([o.id, None if raw_parent is None else uid[id(raw_parent)], [uid[id(c)] for c in o.children],
-                     [uid[id(p)] for p in o.predecessors], [uid[id(p)] for p in o.successors],
+                     [uid[id(p)] for p in o.predecessors if id(p) in uid], [uid[id(p)] for p in o.successors if id(p) in uid],   # (an outside task keeps the copies of an earlier calc as link partners: not part of this input)
                      None if o.wbs is None else n + wbss.index(o.wbs)])
     # the model's milestone flag is the *effective* one: flagged and childless (the schedulers treat a flagged task that has
     # children as a summary)
@@ -330,10 +406,21 @@ def record(case, w, objs, others):
 
 
 def execute(prop, case):
-    w, objs, others, _ = build(case)
-    before = snapshot(w, objs)
-    rec = record(case, w, objs, others)
-    obs, sched = run_calc(case, w, objs)
+    w, objs, others, _ = build(case, hold_last_link=bool(case.get('lateLink')))
+    pending = build.pending
+    box = {}
+
+    def between():
+        # the WBS is edited after the scheduler has already seen it: the last link is made now
+        if pending is not None:
+            try:
+                objs[pending[0]] >> objs[pending[1]]
+            except RuntimeError:
+                pass
+        box['before'] = snapshot(w, objs)
+        box['rec'] = record(case, w, objs, others)
+    obs, sched = run_calc(case, w, objs, main=True, between=between)
+    before, rec = box['before'], box['rec']
     after = snapshot(w, objs)
     rec['obs'] = obs
     rec['pure'] = before == after
@@ -479,26 +566,30 @@ def canon(x):
     return x
 
 
-def project(prop, o):
+def project(prop, o, reused=False):
     if o['out'] != 'ok':
         return [o['out'] if prop != 'C14' else ('runtime' if o['out'] == 'runtime' else 'crash')]
     tasks = canon(o['tasks'])
     rows = canon(o['rows'])
+    # the resource list is the scheduler's table in insertion order; on a scheduler object that was used before, the order is the one
+    # of its first use - no statement fixes it, so it is compared as a multiset then
+    res = sorted(o['resources'], key=lambda x: (x is None, x)) if reused else o['resources']
     if prop in ('C03',):
-        return ['ok', rows, o['resources']]
+        return ['ok', rows, res]
     if prop in ('C04', 'C08', 'C09', 'C02'):
         return ['ok', rows, tasks]
     if prop == 'C07':
         return ['ok', tasks]
     if prop == 'C14':
         return ['ok']
-    return ['ok', rows, tasks, o['resources']]
+    return ['ok', rows, tasks, res]
 
 
 def judge(prop, case, rec, out):
     obs = rec['obs']
     info = {}
-    mp, ip = project(prop, out['model']), project(prop, obs)
+    reused = bool(case.get('prior'))
+    mp, ip = project(prop, out['model'], reused), project(prop, obs, reused)
     eq = mp == ip
     if not eq:
         info['mismatch'] = {'model': out['model'] if out['model']['out'] != 'ok' else {'tasks': canon(out['model']['tasks']), 'rows': canon(out['model']['rows']), 'resources': out['model']['resources']},
